@@ -307,10 +307,85 @@ let show_exec (log : bool) (r : xres) : string =
 
 let exec_case (log : bool) (w : string list) : string =
   let (addr, s) = exec_state w in
-  show_exec log (il_exec_at addr s)
+  let kind = match dec_emu (il_fetch s addr) with
+    | EFetch (len, i) -> Printf.sprintf "F:%d:%s" (int_of_nat len) (mnemonic i)
+    | EFallback _ -> "FB" | ECrash -> "C" in
+  show_exec log (il_exec_at addr s) ^ " | k:" ^ kind
+
+
+(* ---- static metadata ------------------------------------------------------------------ *)
+let decode_ok (w : string list) : (instr * z) option =
+  let bs = bytes_of_hex (List.nth w 0) in
+  let addr = z_of_int (ios (List.nth w 1)) in
+  match dec_decode bs with DOk i -> Some (i, addr) | _ -> None
+
+let info_case (w : string list) : string =
+  let bs = bytes_of_hex (List.nth w 0) in
+  let addr = z_of_int (ios (List.nth w 1)) in
+  match dec_decode bs with
+  | DNotImpl -> "ERR NotImplementedError"
+  | DShort | DInvalid | DAssert -> "NONE"
+  | DOk i ->
+      (match st_analyze i addr with
+       | None -> "NONE"
+       | Some b ->
+           let bt t = match t with BTrue -> "T" | BFalse -> "F" | BUncond -> "U" | BCall -> "C" | BReturn -> "R" | BUnresolved -> "X" in
+           let brs = List.map (fun (t, tg) -> bt t ^ ":" ^ (match tg with None -> "-" | Some a -> string_of_int (int_of_z a))) b.b_branches in
+           Printf.sprintf "len=%d br=%s" (int_of_nat b.b_len) (if brs = [] then "-" else String.concat "," brs))
+
+let mode_s (m : imode) : string =
+  match m with IM_N -> "N" | IM_BP_N -> "BP_N" | IM_PX_N -> "PX_N" | IM_PY_N -> "PY_N" | IM_BP_PX -> "BP_PX" | IM_BP_PY -> "BP_PY"
+let imem_s (m : imode) (n : n) : string =
+  match m with IM_BP_PX | IM_BP_PY -> "(" ^ mode_s m ^ ")" | _ -> Printf.sprintf "(%s:%d)" (mode_s m) (int_of_n n)
+let soff_s (o : z option) : string =
+  match o with None -> "" | Some d -> let v = int_of_z d in if v < 0 then Printf.sprintf "-%d" (- v) else Printf.sprintf "+%d" v
+
+let rop_s ((o, m) : logop * imode) : string =
+  match o with
+  | LImm (_, v) -> "#" ^ string_of_int (int_of_n v)
+  | LImmOff (neg, v) -> Printf.sprintf "#%s%d" (if neg then "-" else "+") (int_of_n v)
+  | LIMem (_, n) -> imem_s m n
+  | LReg (r, _) | LReg3 (r, _) -> reg_s r
+  | LRegIL -> "IL" | LRegIMR -> "IMR" | LRegF -> "F"
+  | LEAddr (_, v) -> Printf.sprintf "[%d]" (int_of_n v)
+  | LEPtr (_, b, off) ->
+      (match b with
+       | PB_Reg (r, _) -> Printf.sprintf "[%s%s]" (reg_s r) (soff_s off)
+       | PB_IncDec (r, _, md, _) ->
+           (match md with
+            | EM_POST_INC -> Printf.sprintf "[%s++%s]" (reg_s r) (soff_s off)
+            | EM_PRE_DEC -> Printf.sprintf "[--%s%s]" (reg_s r) (soff_s off)
+            | _ -> Printf.sprintf "[%s%s]" (reg_s r) (soff_s off))
+       | PB_IMem n -> Printf.sprintf "[%s%s]" (imem_s m n) (soff_s off))
+
+let render_case (w : string list) : string =
+  let bs = bytes_of_hex (List.nth w 0) in
+  match dec_decode bs with
+  | DNotImpl -> "DERR NotImplementedError"
+  | DAssert -> "DERR AssertionError"
+  | DShort | DInvalid -> "DNONE"
+  | DOk i ->
+      (match st_render_ops i with
+       | None -> "RERR"
+       | Some ros -> Printf.sprintf "OK %s %s" (mnemonic i) (if ros = [] then "-" else String.concat " " (List.map rop_s ros)))
+
+let zl_s (l : z list) : string = String.concat "," (List.map (fun a -> string_of_int (int_of_z a)) l)
+
+(* den <hex> <addr> <regs> <mem> <fill>: documented access sets of the instruction in that state *)
+let den_case (w : string list) : string =
+  let (addr, s) = exec_state w in
+  match dec_emu (il_fetch s addr) with
+  | EFetch (_, i) ->
+      (match st_den i s with
+       | Some (r, wr) -> Printf.sprintf "OK r:%s | w:%s" (zl_s r) (zl_s wr)
+       | None -> "NODEN")
+  | _ -> "NOFETCH"
 
 let handle (w : string list) : string =
   match w with
+  | "info" :: rest -> info_case rest
+  | "render" :: rest -> render_case rest
+  | "den" :: rest -> den_case rest
   | "il" :: rest -> il_case rest
   | "exec_py" :: rest -> exec_case true rest
   | "exec1" :: rest -> exec_case false rest
